@@ -1432,6 +1432,29 @@ class Worker:
                     if (~((xa == xb) | (np.isnan(xa) & np.isnan(xb)))).any():
                         via.append(c)
             out["via_data"] = via
+            if slot.fam in ("daily", "billing") and neq.any():
+                # where in the period do the differing rows lie? (the recorded finding about the day grid of the data
+                # classes is confined to the rows named here; a dependence elsewhere is something else)
+                try:
+                    offs = np.array([(t.utcoffset().total_seconds() if t.utcoffset() is not None else 0.0) for t in common])
+                    n = len(common)
+                    chg = np.flatnonzero(np.diff(offs) != 0) + 1          # first row of every new UTC offset
+                    near = np.zeros(n, dtype=bool)
+                    for c in chg:
+                        near[max(0, c - 2):min(n, c + 2)] = True
+                    kinds = set()
+                    for i in np.flatnonzero(neq):
+                        if i <= 1 or i >= n - 2:
+                            kinds.add("edge")
+                        elif near[i]:
+                            kinds.add("transition")
+                        elif offs[i] != offs[0]:
+                            kinds.add("shifted")
+                        else:
+                            kinds.add("plain")
+                    out["rows_where"] = "+".join(sorted(kinds))
+                except Exception as e:  # noqa: BLE001
+                    out["rows_where"] = "unclassified"
             if slot.fam in ("daily", "billing"):
                 try:
                     out["reads"] = "midnight" if bool((A.index.hour == 0).all() and (B.index.hour == 0).all()) else "offset"
